@@ -766,7 +766,7 @@ pub mod harness {
             }
             writeln!(
                 out,
-                "{{\"id\":{},\"rows\":{},\"executions\":{},\"decisions\":{},\"states\":{},\"outcomes\":{},\"max_orders_per_row\":{},\"capped\":{},\"nviol\":{},\"viols\":[{}],\"sample\":{},\"replay_ok\":{},\"ms\":{}}}",
+                "{{\"id\":{},\"rows\":{},\"executions\":{},\"decisions\":{},\"states\":{},\"outcomes\":{},\"max_orders_per_row\":{},\"capped\":{},\"ohash\":\"{:x}\",\"nviol\":{},\"viols\":[{}],\"sample\":{},\"replay_ok\":{},\"ms\":{}}}",
                 jesc(p.id),
                 nrows,
                 executions,
@@ -775,6 +775,12 @@ pub mod harness {
                 outcomes.len(),
                 max_orders_per_row,
                 capped,
+                {
+                    use std::hash::{Hash, Hasher};
+                    let mut h = std::collections::hash_map::DefaultHasher::new();
+                    outcomes.hash(&mut h);
+                    h.finish()
+                },
                 nviol,
                 viols.join(","),
                 if sample.is_empty() { "null".to_string() } else { sample },
